@@ -265,6 +265,59 @@ mod real {
             out.insert("tcp_connect_before_drop".into(), json!(c));
             out.insert("tcp_refused_after_drop_ms".into(), json!(refused_after));
         }
+        // C02 on every address family: the peer address handed to the application is the client's
+        // socket address (an IPv4 client of a dual-stack listener may be shown in its
+        // IPv4-mapped form; compared after unmapping)
+        {
+            let canon = |a: std::net::SocketAddr| -> std::net::SocketAddr {
+                match a {
+                    std::net::SocketAddr::V6(v6) => match v6.ip().octets() {
+                        [0, 0, 0, 0, 0, 0, 0, 0, 0, 0, 0xff, 0xff, a, b, c, d] => std::net::SocketAddr::new(std::net::IpAddr::V4(std::net::Ipv4Addr::new(a, b, c, d)), v6.port()),
+                        _ => std::net::SocketAddr::V6(v6),
+                    },
+                    v4 => v4,
+                }
+            };
+            let mut rows = Vec::new();
+            for (bind, via) in [
+                ("127.0.0.1:0", "127.0.0.1"),
+                ("127.0.0.2:0", "127.0.0.2"),
+                ("0.0.0.0:0", "127.0.0.1"),
+                ("0.0.0.0:0", "127.9.8.7"),
+                ("[::1]:0", "::1"),
+                ("[::]:0", "::1"),
+                ("[::]:0", "127.0.0.1"),
+            ] {
+                let server = match Server::http(bind) {
+                    Ok(s) => s,
+                    Err(e) => {
+                        rows.push(json!({"bind": bind, "bound": false, "error": e.to_string()}));
+                        continue;
+                    }
+                };
+                let port = server.server_addr().to_ip().unwrap().port();
+                let target = format!("{}:{}", if via.contains(':') { format!("[{}]", via) } else { via.to_string() }, port);
+                match TcpStream::connect(&target) {
+                    Ok(mut c) => {
+                        let local = c.local_addr().ok();
+                        let _ = c.write_all(b"GET /peer HTTP/1.1\r\nHost: t\r\nConnection: close\r\n\r\n");
+                        let seen = match server.recv_timeout(Duration::from_secs(2)) {
+                            Ok(Some(rq)) => {
+                                let a = rq.remote_addr().copied();
+                                let _ = rq.respond(Response::from_string("x"));
+                                a
+                            }
+                            _ => None,
+                        };
+                        rows.push(json!({"bind": bind, "connect_to": target, "bound": true, "connected": true,
+                            "client_socket_address": local.map(|a| a.to_string()), "reported_to_application": seen.map(|a| a.to_string()),
+                            "equal_after_unmapping": local.is_some() && local.map(canon) == seen.map(canon)}));
+                    }
+                    Err(e) => rows.push(json!({"bind": bind, "connect_to": target, "bound": true, "connected": false, "error": e.to_string()})),
+                }
+            }
+            out.insert("tcp_peer_address_by_family".into(), json!(rows));
+        }
         // C20 on every class of bind address: after the drop nobody connects for a grace period
         // (a polling client would itself be the wake-up the accept thread may be waiting for),
         // then the very FIRST attempt must be refused
